@@ -24,7 +24,7 @@ LETTER = {"completeSE": "C", "incompleteSE": "I", "newSE": "N", "deleteSE": "D"}
 
 def mask(text):
     """the only part of a saved file that may differ between two saves: FILE_NAME's time stamp"""
-    return re.sub(r"FILE_NAME\('[^']*','[^']*'", "FILE_NAME('','<time>'", text)
+    return re.sub(r"(FILE_NAME\('(?:[^']|'')*',)'[^']*'", r"\1'<time>'", text)
 
 
 def partial_fill(rng, schema, pop, p=0.3):
@@ -80,23 +80,49 @@ def exact_equal(a, b):
     return G.render_inst(a) == G.render_inst(b)
 
 
-def run_case(ctx, h, m, schema, pop, holes, states, strict, workdir, tag, reuse=False, wc=0):
-    """one history: read (exchange), set states, save, load, save, load, save.  returns (kind, what) or None.
+def run_case(ctx, h, m, schema, pop, holes, states, strict, workdir, tag, reuse=False, wc=0, header=None, start="exchange"):
+    """one history: load, (set states,) save, load, save, load, save.  returns (kind, what) or None.
+    start="exchange": the population comes from an exchange file and the states are set through the API;
+    start="working":  the population comes from a working-session file written elsewhere (letters = states; its `D` entries are
+                      skipped by the reader) - with reuse=True this is ReadWorkingFile(A) followed by ReadWorkingFile(B).
     reuse=True: the STEPfile / InstMgr of the previous history are kept (no `reset`): one editing session that loads,
-    saves and reloads several times.  wc: the writeComments argument of every save (instances may carry Part 21 comments)"""
+    saves and reloads several times.  wc: the writeComments argument of every save (instances may carry Part 21 comments).
+    header: body of the HEADER section of the file the history starts from; every save must reproduce it."""
     base = os.path.join(workdir, f"{tag}_base.p21")
-    open(base, "w").write(G.render(schema.name, pop))
     w = [os.path.join(workdir, f"{tag}_w{k}.p21") for k in range(4)]
     x = [os.path.join(workdir, f"{tag}_x{k}.p21") for k in range(3)]
     if not reuse:
         for side in (h, m):
             side.cmd(f"reset {strict}")
-    rh = kv(h.cmd(f"read {base}"))
-    rm = kv(m.cmd("read " + " | ".join(G.encode_inst(i) for i in pop)))
+    if start == "working":
+        text = G.render(schema.name, pop, working=[LETTER[s_] for s_ in states], header=header)
+        open(base, "w").write(text)
+        rh = kv(h.cmd(f"readwork {base}"))
+        rm = kv(m.cmd("readwork " + " | ".join(LETTER[s_] + " " + G.encode_inst(i) for s_, i in zip(states, pop))))
+        # from here on the session holds the entries that were not marked deleted
+        keep = [k for k, s_ in enumerate(states) if s_ != "deleteSE"]
+        ren = {k: j for j, k in enumerate(keep)}
+        holes = [(ren[i], a, b_, c) for i, a, b_, c in holes if i in ren]
+        pop, states = [pop[k] for k in keep], [states[k] for k in keep]
+        if not pop:
+            return None
+    else:
+        text = G.render(schema.name, pop, header=header)
+        open(base, "w").write(text)
+        rh = kv(h.cmd(f"read {base}"))
+        rm = kv(m.cmd("read " + " | ".join(G.encode_inst(i) for i in pop)))
+    want_header = G.header_of(text)
     d0h, d0m = h.cmd("dump"), m.cmd("dump")
+    if start == "working":
+        d0 = parse_dump(d0h)
+        if [int(a) for a, _, _ in d0] != [i.id for i in pop] or [c for _, _, c in d0] != states:
+            return ("property", f"reading a working-session file: the session holds {[(a, c) for a, _, c in d0]}, the file's entries not "
+                                f"marked deleted are {[(i.id, s_) for i, s_ in zip(pop, states)]}")
     if int(rh["n"]) != len(pop):
         return ("property", f"exchange read created {rh['n']} of {len(pop)} instances")
     for k, st in enumerate(states):
+        if start == "working":
+            break
         a, b = h.cmd(f"setstate {k} {st}"), m.cmd(f"setstate {k} {st}")
         if a != "R ok" or b != "R ok":
             return ("correspondence", f"setstate {k}: impl {a} model {b}")
@@ -125,6 +151,11 @@ def run_case(ctx, h, m, schema, pop, holes, states, strict, workdir, tag, reuse=
     except Exception as ex:
         return ("property", f"a saved file cannot be parsed: {ex}")
     # ---------------- oracle
+    # the header is part of the file: every save carries the header of the file the session was loaded from (time stamp aside)
+    for k in range(3):
+        got = G.header_of(open(w[k]).read())
+        if got != want_header:
+            return ("property", f"save {k + 1}: the HEADER section is not the one of the file the session was loaded from:\n{got}\n--- expected ---\n{want_header}")
     if ft0 != "working" or ft1 != "working":
         return ("property", "saved file is not in working-session format")
     # first save: every instance with its state letter
@@ -247,6 +278,10 @@ def run(ctx):
                 pop, holes = partial_fill(ctx.rng, s, pop0, p=0.0 if pi_ % 3 == 0 else 0.35)
                 if pi_ % 2 == 0:
                     pop = G.add_comments(ctx.rng, pop, 0.4)
+                if pi_ % 4 != 3:
+                    # strings with every delimiter of the file grammar inside (`;`, `'`, `#`, `(`, `)`, comment brackets,
+                    # section keywords), in instances of EVERY state - also in the entries the reader only skips
+                    pop = G.restring(ctx.rng, pop, G.TRICKY_STRS, 0.6)
                 prev_case = None
                 for ai in range(n_assign):
                     mode = ["any", "complete", "nodelete", "any", "uniform", "complete"][ai % 6]
@@ -254,7 +289,11 @@ def run(ctx):
                     reuse = ai % 3 != 0            # two of three histories continue in the session of the previous one
                     strict = pi_ % 2 if True else 0    # the mode is fixed when the STEPfile is made: constant per session
                     wc = 1 if ai % 4 != 3 else 0
-                    r = run_case(ctx, h, m, s, pop, holes, states, strict, wd, "c", reuse=(reuse and ai > 0), wc=wc)
+                    header = G.gen_header(ctx.rng, s.name, n_extra=[0, 1, 3, 2][ai % 4])      # 3 and 4+ header entities, new contents every time
+                    start = "working" if ai % 3 != 0 else "exchange"      # ai%3 = 1, 2: ReadWorkingFile(A) then ReadWorkingFile(B) in one STEPfile
+                    r = run_case(ctx, h, m, s, pop, holes, states, strict, wd, "c", reuse=(reuse and ai > 0), wc=wc, header=header, start=start)
+                    ctx.hist("history starts from", start + " file")
+                    ctx.hist("header entities", str(header.count(";\n")))
                     ctx.hist("writeComments", str(wc))
                     ctx.hist("instances carrying a comment", str(sum(1 for i in pop if i.comment)))
                     ctx.hist("session", "continued" if (reuse and ai > 0) else "fresh")
@@ -264,7 +303,7 @@ def run(ctx):
                         r = None
                     n += 1
                     if not r:
-                        prev_case = (pop, holes, states)
+                        prev_case = (pop, holes, states, header, start)
                     ctx.count(1, key=(s.name, pi_, ai))
                     ctx.hist("mode", "strict" if strict else "lenient")
                     for st in states:
@@ -276,7 +315,7 @@ def run(ctx):
                         # does it need the continued session?  (then the previous history is part of the failing input)
                         previous = None
                         if reuse and ai > 0 and prev_case is not None:
-                            fresh = run_case(ctx, h, m, s, pop, holes, states, strict, wd, "s", wc=wc)
+                            fresh = run_case(ctx, h, m, s, pop, holes, states, strict, wd, "s", wc=wc, header=header, start=start)
                             if not (fresh and fresh[0] == kind):
                                 previous = prev_case
                         # shrink: drop instances while the same kind of problem persists
@@ -284,8 +323,8 @@ def run(ctx):
 
                         def fails(p_, h_, s_):
                             if previous is not None:
-                                run_case(ctx, h, m, s, previous[0], previous[1], previous[2], strict, wd, "sp", wc=wc)
-                            rr = run_case(ctx, h, m, s, p_, h_, s_, strict, wd, "s", reuse=previous is not None, wc=wc)
+                                run_case(ctx, h, m, s, previous[0], previous[1], previous[2], strict, wd, "sp", wc=wc, header=previous[3], start=previous[4])
+                            rr = run_case(ctx, h, m, s, p_, h_, s_, strict, wd, "s", reuse=previous is not None, wc=wc, header=header, start=start)
                             return rr is not None and rr[0] == kind
                         changed, budget = True, 40
                         while changed and budget > 0:
@@ -302,12 +341,12 @@ def run(ctx):
                                     cur, changed = (cand, hc, sc), True
                                     break
                         p_, h_, s_ = cur
-                        rr = (None if previous is not None else run_case(ctx, h, m, s, p_, h_, s_, strict, wd, "s", wc=wc)) or r
+                        rr = (None if previous is not None else run_case(ctx, h, m, s, p_, h_, s_, strict, wd, "s", wc=wc, header=header, start=start)) or r
                         rep = {"schema_express": s.express(), "schema_name": s.name, "strict": strict,
-                               "file": G.render(s.name, p_), "states": s_, "writeComments": wc,
+                               "file": G.render(s.name, p_), "states": s_, "writeComments": wc, "header": header, "start": start,
                                "holes": [[i, a, b_, c] for i, a, b_, c in h_],
                                "previous_history_in_same_session": None if previous is None else {
-                                   "file": G.render(s.name, previous[0]), "states": previous[2],
+                                   "file": G.render(s.name, previous[0]), "states": previous[2], "header": previous[3], "start": previous[4],
                                    "holes": [[i, a, b_, c] for i, a, b_, c in previous[1]]},
                                "how": "exp2cxx the schema, link harness/h_p21.cc; reset <strict>; read FILE; setstate i <state>...; "
                                       "writework W0 <writeComments>; readwork W0; dump; writework W1 <wc>; readwork W1; writework W2 <wc>"}
@@ -360,9 +399,9 @@ def replay(ctx, path):
         if pv:
             ppop = [i for _, i in G.parse_p21(pv["file"])[2]]
             run_case(ctx, h, m, schema, ppop, [tuple(x) for x in pv.get("holes", [])], pv["states"], r["strict"], wd, "rp",
-                     wc=r.get("writeComments", 0))
+                     wc=r.get("writeComments", 0), header=pv.get("header"), start=pv.get("start", "exchange"))
         rr = run_case(ctx, h, m, schema, pop, [tuple(x) for x in r.get("holes", [])], r["states"], r["strict"], wd, "r",
-                      reuse=bool(pv), wc=r.get("writeComments", 0))
+                      reuse=bool(pv), wc=r.get("writeComments", 0), header=r.get("header"), start=r.get("start", "exchange"))
         print("result:", rr)
         if rr and rr[0] == "property":
             ctx.violation(d.get("key", "replay"), rr[1], r)
